@@ -7,7 +7,10 @@ Import ListNotations.
 Open Scope Z_scope.
 
 (* ghost output: what every leaf consumed, and the delimiters a field object remembers (class-level state) *)
-Inductive titem := TChunk (off : Z) (b : bytes) | TDelim (c : cid) (f : fname) (d : bytes).
+Inductive titem :=
+| TChunk (off : Z) (b : bytes)               (* a leaf consumed bytes b at position off *)
+| TDelim (c : cid) (f : fname) (d : bytes)   (* a field object remembered the delimiter d *)
+| TMove (target : Z).                        (* a Move pseudo-field set the cursor to target *)
 Definition trace := list titem.
 
 Definition stack := list (Z * fname * cid).     (* PacketError.fields_stack: innermost first *)
@@ -147,7 +150,7 @@ Definition unpack_field (cf : lconf) (c : cid) (f : cfield) (s : slots) (off ipp
       | Exn x => FExn x
       | Ok z => if al && (z =? 0) then FExn ZeroDivisionError
                 else match move_unpack al rf z off ipp with
-                     | Some o' => FOk s o' []
+                     | Some o' => FOk s o' [TMove o']
                      | None => FExn GenericError
                      end
       end
